@@ -128,7 +128,7 @@ def scribble(obj, fr: Fresh, depth=0):
 
 
 OPS = ["set_u", "set_logl", "update", "commit", "get_current_key", "get_current_all", "get_history", "get_history_flat",
-       "get_history_index", "get_last", "to_dict", "export_import", "results", "set_then_scribble_input"]
+       "get_history_index", "get_last", "to_dict", "export_import", "results", "set_then_scribble_input", "set_readonly_view"]
 
 
 def apply_op(ctx, op, st: StateManager, model: Model, fr: Fresh, tag):
@@ -150,6 +150,15 @@ def apply_op(ctx, op, st: StateManager, model: Model, fr: Fresh, tag):
         st.set_current("u", a)
         model.set("u", keep)
         scribble(a, fr)
+    elif op == "set_readonly_view":
+        # the caller hands in a locked (read-only) view of a buffer it keeps writing to, e.g. a reused likelihood output
+        base = fr.arr_logl()
+        view = base.view()
+        view.flags.writeable = False
+        keep = base.copy()
+        st.set_current("logl", view)
+        model.set("logl", keep)
+        scribble(base, fr)
     elif op == "update":
         a, b = fr.arr_u(), fr.arr_logl()
         d = {"u": a, "logl": b, "beta": 1.0, "logz": fr.logz()}
@@ -306,6 +315,13 @@ def make_sequences(length):
                 a = -rng.rand(N)
                 st.set_current("logl", a)
                 cur["logl"] = a.copy()
+            elif op == "set_readonly_view":
+                base = -rng.rand(N)
+                view = base.view()
+                view.flags.writeable = False
+                st.set_current("logl", view)
+                cur["logl"] = base.copy()
+                base[...] = -777.0
             elif op == "update":
                 d = {"u": rng.rand(N, 1), "logl": -rng.rand(N), "beta": 0.5, "logz": -rng.rand()}
                 st.update_current(d)
